@@ -29,6 +29,25 @@ int handle_cloexec(int handle, bool enable)
   return 0;
 }
 
+int handle_above_std(int *handle)
+{
+  ASSERT(handle);
+
+  if (*handle > STDERR_FILENO) {
+    return 0;
+  }
+
+  int r = fcntl(*handle, F_DUPFD_CLOEXEC, STDERR_FILENO + 1);
+  if (r < 0) {
+    return -errno;
+  }
+
+  handle_destroy(*handle);
+  *handle = r;
+
+  return 0;
+}
+
 int handle_destroy(int handle)
 {
   if (handle == HANDLE_INVALID) {
